@@ -1,7 +1,8 @@
 """Static registry: which engine serves which property, tier sizes, evidence texts."""
 
 ENGINES = {
-    'toplex': {'name': 'toplex', 'binary': 'toplex', 'configurations': ['Toplex_map + Lazy_toplex_map (lock-step)']},
+    'skbl': {'name': 'skbl', 'binary': 'skbl', 'kind': 'seeded edit/contraction histories on Skeleton_blocker_complex, refinement against M1, blockers = minimal non-faces, homotopy invariants', 'configurations': ['Skeleton_blocker_complex<Skeleton_blocker_simple_traits>']},
+    'toplex': {'name': 'toplex', 'binary': 'toplex', 'kind': 'seeded client histories on Toplex_map and Lazy_toplex_map in lock-step, refinement against the abstract-complex model M1 after every step', 'configurations': ['Toplex_map + Lazy_toplex_map (lock-step)']},
 }
 
 COMMON_ASSUME = [
@@ -11,8 +12,23 @@ COMMON_ASSUME = [
 ]
 
 PROPS = {
+    'C17': {
+        'engine': 'skbl',
+        'level_text': 'seeded search over edit histories (add_vertex, add_edge with and without blockers, add_simplex, remove_star of vertices/edges/simplices through every overload, contract_edge with and without the link condition, start from the simplex-list constructor) with a full audit after every few operations: contains() of every vertex set, complex_simplex_range, counts per dimension, connected components, link_condition, blocker_range = exactly the minimal non-faces of dimension >= 2, Euler characteristic; Betti numbers across contractions under the link condition. Failures are gated, minimised and replayable. Evidence, not proof (<= 8 vertices).',
+        'level_note': 'trusted: model M1 + Z_2 rank computation in /verif/models; histories only (no schedule or fault exists for this class); one known finding is fenced narrowly (known_findings.txt C17-KF1)',
+        'technique': 'deterministic simulation: seeded client histories + reference-model refinement (history dimension only)',
+        'runs': {'quick': 20000, 'thorough': 400000},
+        'rule': 'one evaluation = one plan (clients editor/eraser/contractor/auditor interleaved, <= 60 ops on <= 8 vertices; start from isolated vertices, from the simplex-list constructor or by add_vertex) executed on Skeleton_blocker_complex against model M1 after every op; non-trivial = at least one mutating op and one full audit; distinct = distinct hash of the sequence of model states',
+        'real': ['gudhi/Skeleton_blocker.h and sub-headers', 'boost::graph adjacency_list'],
+        'stub': ['none'],
+        'probes_expected': ['probe.contract_with_link_condition', 'probe.contract_without_link_condition', 'probe.add_simplex_with_blockers_present', 'probe.remove_star_dim0', 'probe.remove_star_dim1', 'probe.remove_star_dim2', 'probe.init_from_list'],
+        'assumptions': COMMON_ASSUME,
+    },
     'C16': {
         'engine': 'toplex',
+        'level_text': 'seeded search over operation histories (insert / remove maximal, non-maximal and absent simplices / remove vertex / contraction incl. absent vertices / independent insertion, bursts that cross the lazy cleaning bounds, labels above 2^32) with a full membership, maximality, maximal_simplices, maximal_cofaces and count audit against a brute-force abstract complex after every few operations, reads in seeded order (lazy reads mutate); failures are gated (fresh-process replay twice, same class and event-log hash), minimised (ddmin) and written as replay files. Evidence, not proof: universes of at most 8 labels.',
+        'level_note': 'trusted: model M1 in /verif/models/complex.h, g++ 12 with ASan+UBSan; histories and lazy-cleaning points only (no schedule or I/O fault exists for this class)',
+        'technique': 'deterministic simulation: seeded client histories + reference-model refinement (history dimension only)',
         'runs': {'quick': 20000, 'thorough': 400000},
         'rule': 'one evaluation = one plan (clients grower/eraser/contractor/auditor interleaved, <= 70 ops on <= 8 vertex labels) executed on Toplex_map and Lazy_toplex_map in lock-step against model M1 after every op; non-trivial = at least one mutating op executed and at least one full audit; distinct = distinct hash of the sequence of model states of the run',
         'real': ['gudhi/Toplex_map.h', 'gudhi/Lazy_toplex_map.h', 'boost::heap::fibonacci_heap', 'libstdc++ unordered containers'],
@@ -21,3 +37,19 @@ PROPS = {
         'assumptions': COMMON_ASSUME,
     },
 }
+
+HOOK_COMMITS = []
+
+NOT_APPLICABLE = {
+ 'C02': 'batch function of (complex, field, min length, flag): no state a history could reach, no schedule, no I/O, no fault at its interface; its one scheduled ingredient (the filtration sort) is decided under C03. Deciding it means input generation against an independent reduction, which is not deterministic simulation.',
+ 'C10': 'stateless pure arithmetic on (p, a, b, c): no history, schedule, I/O or fault; the right tool is exhaustive/boundary enumeration, not simulation.',
+ 'C11': 'one batch call mapping (matrix, threshold, dim, p) to a stream of intervals; no mutable object outlives the call, nothing is scheduled, no fault can be injected at its interface; differential input generation is outside this technique family.',
+ 'C12': 'batch function of the edge list; the property (persistence preserved for all graphs) is quantified over inputs only and would be decided by input generation with a persistence oracle, not by simulation.',
+ 'C13': 'immutable after construction, pure index arithmetic over a finite configuration space (shapes x periodic masks) to enumerate, not to simulate; its only scheduled ingredient (the cell sort) is exercised by the sort seam of C03.',
+ 'C14': 'single batch passes over their input with no state observable between calls and no fault at the iterator interface; agreement with generic cubical persistence over all value patterns is exhaustive enumeration of weak orders, not simulation.',
+ 'C18': 'value types with pure constructors and pure arithmetic; a landscape is fully determined by its diagram (no history-dependent state), no schedule; file helpers are not part of the property.',
+ 'C19': 'batch construction from a point set, decided by geometry over inputs; nothing to schedule or to fail.',
+ 'C20': 'immutable combinatorial/geometric pure functions of (triangulation, simplex, point); no history, schedule or fault.',
+}
+_P = 'simulation target (DESIGN.md section 4) whose engine is not finished yet; not claimed until its check is quiet on the unchanged tree for the right reasons'
+PLANNED = {k: _P for k in ['C01', 'C03', 'C04', 'C05', 'C06', 'C07', 'C08', 'C09', 'C15', 'C16', 'C17']}
